@@ -8,6 +8,7 @@ pub mod c16;
 pub mod chain;
 pub mod c19;
 pub mod c20;
+pub mod c18;
 
 #[derive(Clone, Debug)]
 pub struct RunCfg {
